@@ -219,6 +219,17 @@ Theorem c08_inline_threshold :
 Proof. vm_compute. repeat split; discriminate. Qed.
 Print Assumptions c08_inline_threshold.
 
+(* RSA: the size checks of GenerateRSAKeyPair, UnmarshalRsaPublicKey and
+   UnmarshalRsaPrivateKey (one predicate, transcribed in Model.rsa_size_ok) accept
+   exactly the closed range [MinRsaKeyBits, maxRsaKeyBits] = [2048, 8192]: both
+   boundary sizes are supported *)
+Theorem c08_rsa_size_range :
+  (minRsaKeyBits = 2048 /\ maxRsaKeyBits = 8192)%Z /\
+  forall bits, rsa_size_ok (Z.to_N minRsaKeyBits) (Z.to_N maxRsaKeyBits) bits = true <->
+               2048 <= bits /\ bits <= 8192.
+Proof. exact rsa_size_range_l. Qed.
+Print Assumptions c08_rsa_size_range.
+
 (* ---- non-vacuity ------------------------------------------------------------------------------------ *)
 (* a toy ideal scheme: signature value [7] was issued by key 1 on
    makeUnsigned "d" [3;1] [5]; the envelope carrying it is accepted for domain
@@ -245,19 +256,33 @@ Proof. vm_compute. reflexivity. Qed.
 (* the monitor rejects an acceptance under a domain other than the sealed one ... *)
 Example monitor_rejects_wrong_domain :
   monitor_case [6; 1; 1;  1; 1;9; 1;8; 0; 0;  1;  0; 1;100; 1;3; 1;5; 1;7;  0;  1;101;
-                0; 0; 0; -3;  0; 0; 0;  1; 1;8; 1;3; 1;5;  0; 0]%Z = [ERR_PROPERTY; 1]%Z.
+                0; 0; 0; -3;  0; 0; 0;  1; 1;8; 1;3; 1;5; 0;  0; 0]%Z = [ERR_PROPERTY; 1]%Z.
 Proof. vm_compute. reflexivity. Qed.
 (* ... accepts it under the sealed one ... *)
 Example monitor_accepts_right_domain :
   monitor_case [6; 1; 1;  1; 1;9; 1;8; 0; 0;  1;  0; 1;100; 1;3; 1;5; 1;7;  0;  1;100;
-                0; 0; 0; -3;  0; 0; 0;  1; 1;8; 1;3; 1;5;  0; 0]%Z = [].
+                0; 0; 0; -3;  0; 0; 0;  1; 1;8; 1;3; 1;5; 0;  0; 0]%Z = [].
 Proof. vm_compute. reflexivity. Qed.
 (* ... rejects a peerstore acceptance when the record's ID is not the signer's ... *)
 Example monitor_rejects_foreign_record_id :
   monitor_case [6; 2; 1;  1; 1;9; 1;8; 0; 1;77;  1;  0; 1;100; 1;3; 1;5; 1;7;  0;  1;100;
-                0; 0; 0; -3;  0; 0; 0;  1; 1;8; 1;3; 1;5;  1; 1;78]%Z = [ERR_PROPERTY; 2]%Z.
+                0; 0; 0; -3;  0; 0; 0;  1; 1;8; 1;3; 1;5; 1;77;  1; 1;78]%Z = [ERR_PROPERTY; 2]%Z.
 Proof. vm_compute. reflexivity. Qed.
 (* ... and a signature that verifies for another message *)
 Example monitor_rejects_other_message :
   monitor_case [7; 1; 1;5; 1;7; 1;6; 1;7; 1]%Z = [ERR_PROPERTY; 71]%Z.
+Proof. vm_compute. reflexivity. Qed.
+
+(* ... an alias ID that "matches" a key, an equal key with another ID, and a
+   supported RSA size that does not unmarshal *)
+Example monitor_rejects_alias_match :
+  monitor_case [12; 1;8; 0; 1;77; 1;78; 1]%Z = [ERR_PROPERTY; 121]%Z.
+Proof. vm_compute. reflexivity. Qed.
+Example monitor_rejects_equal_key_other_id :
+  monitor_case [11; 1; 1;9; 1;8; 1;77; 2;8;0; 3; 1; 1;8; 1;78]%Z = [ERR_PROPERTY; 111]%Z.
+Proof. vm_compute. reflexivity. Qed.
+Example monitor_rejects_rsa_boundary :
+  monitor_case [13; 8192; 0; 2; 0]%Z = [ERR_PROPERTY; 131]%Z.
+Proof. vm_compute. reflexivity. Qed.
+Example monitor_allows_rsa_too_big_rejected : monitor_case [13; 8193; 0; 2; 0]%Z = [].
 Proof. vm_compute. reflexivity. Qed.
